@@ -268,10 +268,11 @@ impl Core {
   }
 
   pub fn run_frame(&mut self) {
-    while self.memory.io.video.get_current_mode() != 1 {
-      self.update();
-    }
-    while self.memory.io.video.get_current_mode() == 1 {
+    // Run until the LCD presents its next frame. The mode is only visible
+    // between steps, and a whole VBLANK can pass inside one long translated
+    // block, so count completed frames instead of polling the mode.
+    let start = self.memory.io.video.get_frames_completed();
+    while self.memory.io.video.get_frames_completed() == start {
       self.update();
     }
   }
